@@ -43,9 +43,18 @@ BCS = {
     "c1": {"curvature": 1},
     "m0": {"type": "mixed", "value": 0, "const": 0},
     "m1": {"type": "mixed", "value": 1, "const": 1},
+    "m1b": {"type": "mixed", "value": 1, "const": 2},  # differs from m1 only in the constant
+    "m2": {"type": "mixed", "value": 2, "const": 1},  # differs from m1 only in gamma
+    "vf1": {"value": [1.0, 2.0]},  # per-face arrays that differ in one entry
+    "vf2": {"value": [1.0, 3.0]},
+    "mf1": {"type": "mixed", "value": [1.0, 2.0], "const": [0.5, 0.5]},
+    "mf2": {"type": "mixed", "value": [1.0, 2.0], "const": [0.5, 1.5]},
     "ve0": {"value_expression": "0"},
     "ve1": {"value_expression": "1"},
     "de1": {"derivative_expression": "1"},
+    "vp1": {"virtual_point": "1"},  # same text as ve1/de1, other target
+    "me1": {"type": "mixed_expression", "value": "1", "const": "1"},
+    "me1b": {"type": "mixed_expression", "value": "1", "const": "2"},
     "sv0": "value",
     "sd0": "derivative",
     "lvhd": {"x-": {"value": 0}, "x+": {"derivative": 0}},
@@ -135,9 +144,10 @@ def execute(req, env: Env):
     with warnings.catch_warnings():
         warnings.simplefilter("ignore")
         if kind == "mkop":  # grid.make_operator(op, bc, backend)(data)
-            _, gid, op, bcid, backend, rank = req
+            _, gid, op, bcid, backend, rank = req[:6]
+            kw = req[6] if len(req) > 6 else {}
             g = env.grid(gid)
-            f = g.make_operator(op, BCS[bcid], backend=backend)
+            f = g.make_operator(op, BCS[bcid], backend=backend, **kw)
             return _digest(np, f(_data(np, g, rank)))
         if kind == "field":  # field.apply_operator(op, bc)
             _, gid, op, bcid, rank = req
@@ -236,7 +246,7 @@ def _interp(np, f, point, opt):
 
 EQS = {
     "dv0": ["diff", 1.0, "v0"], "dd0": ["diff", 1.0, "d0"], "dc0": ["diff", 1.0, "c0"], "dv1": ["diff", 1.0, "v1"],
-    "dd1": ["diff", 1.0, "d1"], "d2v0": ["diff", 2.0, "v0"],
+    "dd1": ["diff", 1.0, "d1"], "d2v0": ["diff", 2.0, "v0"], "dm1": ["diff", 1.0, "m1"], "dm1b": ["diff", 1.0, "m1b"],
     "ch_vd": ["ch", 1.0, "v0", "d0"], "ch_dv": ["ch", 1.0, "d0", "v0"], "ch_vv": ["ch", 1.0, "v0", "v0"],
     "ch_dd": ["ch", 1.0, "d0", "d0"], "ch_cd": ["ch", 1.0, "c0", "d0"], "ch_v1d1": ["ch", 1.0, "v1", "d1"],
     "sh_vd": ["sh", 1.0, "v0", "d0"], "sh_dv": ["sh", 1.0, "d0", "v0"],
@@ -262,8 +272,9 @@ def alphabet(family, tier):
     quick = tier == "quick"
     if family == "line":
         bcs = ["v0", "d0", "c0", "v1", "d1", "c1", "m0", "m1", "ve0", "ve1", "de1", "sv0", "sd0", "lvhd", "ldhv"]
+        bcs += ["m1b", "m2"]
         if quick:
-            bcs = ["v0", "d0", "c0", "v1", "d1", "m1", "ve0", "lvhd", "ldhv"]
+            bcs = ["v0", "d0", "c0", "v1", "d1", "m1", "m1b", "m2", "ve0", "lvhd", "ldhv"]
         for gid in ("A", "A2", "B"):
             for op in ("laplace", "gradient", "d_dx"):
                 if quick and gid == "A2" and op != "laplace":
@@ -279,13 +290,21 @@ def alphabet(family, tier):
         for op in ("laplace", "gradient"):
             for bc in ("per", "aper"):
                 reqs.append(["mkop", "C", op, bc, "numba", 0])
+        # operator options must be part of every cache key
+        for meth in ("central", "forward", "backward"):
+            for bc in ("v0", "d0"):
+                reqs.append(["mkop", "A", "gradient", bc, "numba", 0, {"method": meth}])
+        for bc in ("ve1", "de1", "vp1", "me1", "me1b"):
+            if ["mkop", "A", "laplace", bc, "numba", 0] not in reqs:
+                reqs.append(["mkop", "A", "laplace", bc, "numba", 0])
         reqs.append(["nobc", "C", "laplace"])
         reqs.append(["gridprop", "A", "cell_volumes"])
         reqs.append(["gridprop", "B", "cell_volumes"])
     elif family == "radial":
         bcs = ["v0", "d0", "c0", "v1", "d1", "m1", "ve0", "rlvhd", "rldhv"]
+        bcs += ["m1b"]
         if quick:
-            bcs = ["v0", "d0", "c0", "v1", "rlvhd", "rldhv"]
+            bcs = ["v0", "d0", "c0", "v1", "m1", "m1b", "rlvhd", "rldhv"]
         for gid in ("P", "S", "Q"):
             for op in ("laplace", "gradient", "d_dr")[: 2 if quick else 3]:
                 for bc in bcs:
@@ -294,15 +313,19 @@ def alphabet(family, tier):
                     reqs.append(["field", gid, op, bc, 0])
             reqs.append(["nobc", gid, "laplace"])
             reqs.append(["gridprop", gid, "cell_volumes"])
+        for cons in (True, False):
+            for bc in ("v0", "d0"):
+                reqs.append(["mkop", "S", "laplace", bc, "numba", 0, {"conservative": cons}])
     elif family == "plane":
         for bc in ("v0", "d0", "nv0", "nd0", "v1"):
             reqs.append(["mkop", "D", "divergence", bc, "numba", 1])
             reqs.append(["field", "D", "divergence", bc, 1])
-        for bc in ("v0", "d0", "v1", "c0"):
+        for bc in ("v0", "d0", "v1", "c0", "vf1", "vf2", "mf1", "mf2", "m1", "m1b"):
             reqs.append(["mkop", "D", "laplace", bc, "numba", 0])
-            reqs.append(["mkop", "D", "laplace", bc, "scipy", 0])
+            if bc in ("v0", "d0", "v1", "c0", "vf1", "vf2"):
+                reqs.append(["mkop", "D", "laplace", bc, "scipy", 0])
     elif family == "pde":
-        for eqid in (EQS if not quick else ["dv0", "dd0", "dc0", "dv1", "ch_vd", "ch_dv", "ch_cd", "sh_vd", "sh_dv", "p_v0",
+        for eqid in (EQS if not quick else ["dv0", "dd0", "dc0", "dv1", "dm1", "dm1b", "ch_vd", "ch_dv", "ch_cd", "sh_vd", "sh_dv", "p_v0",
                                               "p_d0", "p_ops", "p_ops2", "p_k1", "p_k2"]):
             reqs.append(["rate", eqid, "A", "numpy"])
             reqs.append(["rhs", eqid, "A", "numba"])
